@@ -92,7 +92,7 @@ def build_precond(model, cfg):
     return KFACPreconditioner(model, **kw)
 
 
-def rank_body(cfg, history, W, observe=None, single_union=False):
+def rank_body(cfg, history, W, observe=None, single_union=False, pre_step=None):
     """Returns the function executed by every rank.  With single_union=True (W must
     be 1) every pass is fed the concatenation of the batches of `cfg['union_of']` ranks."""
     dist = torch.distributed
@@ -143,7 +143,10 @@ def rank_body(cfg, history, W, observe=None, single_union=False):
                         if q.grad is not None:
                             dist.all_reduce(q.grad)
                             q.grad.div_(W)
+                pre = pre_step(rank, ev, model, p) if pre_step is not None else None
                 p.step()
+                if pre_step is not None:
+                    obs.append(('pre', ev, pre))
             elif kind == 'eval':
                 model.eval()
                 one_pass(ev, 0)
@@ -177,12 +180,12 @@ def rank_body(cfg, history, W, observe=None, single_union=False):
     return body
 
 
-def run(cfg, history, W, seed=0, policy='random', observe=None):
+def run(cfg, history, W, seed=0, policy='random', observe=None, pre_step=None):
     from harness import simdist
-    return simdist.run_world(W, rank_body(cfg, history, W, observe), seed=seed, policy=policy)
+    return simdist.run_world(W, rank_body(cfg, history, W, observe, pre_step=pre_step), seed=seed, policy=policy)
 
 
-def run_single(cfg, history, observe=None, union_of=None):
+def run_single(cfg, history, observe=None, union_of=None, pre_step=None):
     """Single-process run (torch.distributed not initialised)."""
     from harness import simdist
     simdist.install()      # dist.is_initialized() is False outside a simulated world
@@ -190,7 +193,7 @@ def run_single(cfg, history, observe=None, union_of=None):
     if union_of:
         c['union_of'] = union_of
     c['grad_worker_fraction'] = 1.0
-    return rank_body(c, history, 1, observe, single_union=bool(union_of))(0)
+    return rank_body(c, history, 1, observe, single_union=bool(union_of), pre_step=pre_step)(0)
 
 
 def grads(model):
